@@ -54,3 +54,6 @@ Qed.
 
 Lemma go_fffd_not_word : is_word_rune go_is_letter go_is_number RuneError = false.
 Proof. vm_compute. reflexivity. Qed.
+
+Lemma go_wild_not_word : is_word_rune go_is_letter go_is_number WildcardRune = false.
+Proof. vm_compute. reflexivity. Qed.
